@@ -6,10 +6,12 @@ import MellonDriver.Core
 import MellonDriver.Kernel
 import MellonDriver.Cond
 import MellonDriver.Decomp
+import MellonDriver.Params
+import MellonDriver.Rank
 open Mellon Drv
 
 /-- All handlers, tried in order. -/
-def handlers : List Handler := [handleKernel, handleCond, handleDecomp]
+def handlers : List Handler := [handleKernel, handleCond, handleDecomp, handleRank, handleParams]
 
 def handle : P String := do
   let op ← tok
